@@ -381,7 +381,11 @@ macro_rules! numtraits {
                         let n_minus_1 = n - 1;
 
                         guess.fixpoint(max_bits, |s| {
-                            let q = self / s.pow(n_minus_1);
+                            // if s^(n - 1) overflows it exceeds self, so the quotient is zero
+                            let q = match s.checked_pow(n_minus_1) {
+                                Some(p) => self / p,
+                                None => Self::ZERO,
+                            };
                             let mul: Self = n_minus_1.into();
                             let t: Self = s * mul + q;
                             t.div_rem_unchecked(n.into()).0
